@@ -52,6 +52,7 @@ Definition guard_pass (k : cmp_kind) (gov a : str) : bool :=
   match k with
   | CmpNeq => str_eqb gov a
   | CmpEqualFold => str_eqb (fold gov) (fold a)
+  | CmpGuardNotFirst => true (* the comparison may be skipped: nothing is promised *)
   | CmpOther => true      (* unrecognised comparison: nothing is promised *)
   | CmpNone => true       (* no comparison at all: every authority passes  *)
   end.
